@@ -10,7 +10,7 @@ import trio._core._run as _trun
 from trio.testing import MockClock
 
 from . import sut
-from .core import Deadlock, HarnessError, StepCap
+from .core import Deadlock, HarnessError, StepCap, no_progress
 from .scenario import (AsyncApi, Result, build_pool, build_world, caller_script, finish,
                        probe_requests)
 
@@ -129,7 +129,7 @@ class _Instrument(trio.abc.Instrument):
             ex.half_mark = (ex.world.now, ex.world.opcount)
         if ex.nsteps > ex.step_cap and not ex.stepcap:
             ex.stepcap = True
-            if getattr(ex, "half_mark", None) == (ex.world.now, ex.world.opcount):
+            if no_progress(getattr(ex, "half_mark", None), ex.world):
                 ex.snapshot_blocked()
                 ex.spinning = True
             if ex.root_scope is not None:
